@@ -382,7 +382,8 @@ class Repo:
         self.inlined = []
         from . import inline as _inline
         _inline.apply(self)
-        # (alias normalisation, sa/normalize.py, is deliberately NOT applied globally: `x = self.attr` may be a snapshot of shared state —
+        _inline.normalise_aliases(self)   # restricted to final attributes
+        # (general alias normalisation, sa/normalize.py, is deliberately NOT applied globally: `x = self.attr` may be a snapshot of shared state —
         #  C03.a, C08.g depend on the difference; rules resolve aliases where they match access paths: pat.expand_alias)
 
     # -- lookup -----------------------------------------------------------
